@@ -208,9 +208,9 @@ func projectSlice(ctx Context, doc bsonkit.Doc, _, path string, v interface{}) e
 				start = n
 			}
 		}
-		end := start + limit
-		if end > n {
-			end = n
+		end := n
+		if limit < n-start {
+			end = start + limit
 		}
 		state.merge[path] = append(bson.A{}, array[start:end]...)
 		return nil
@@ -225,8 +225,9 @@ func projectSlice(ctx Context, doc bsonkit.Doc, _, path string, v interface{}) e
 			state.merge[path] = array
 		}
 	case limit < 0:
+		// (the negation of the smallest integer is not positive: keep everything)
 		n := -limit
-		if n < len(array) {
+		if n > 0 && n < len(array) {
 			state.merge[path] = array[len(array)-n:]
 		} else {
 			state.merge[path] = array
